@@ -106,6 +106,15 @@ def main():
     core.MUST_REJECT = getattr(mod, 'must_reject', None)
     if args.replay:
         rp = json.load(open(args.replay))
+        if rp.get('subkind') == 'kernel-row':
+            mod.translate()
+            rows = mod.kernel_failing_rows()
+            if not rows:
+                print("replay: the kernel tables of the current tree agree with the model")
+                return 0
+            print("replay: kernel rows differ: %s" % json.dumps(rows)[:600])
+            print("VIOLATION property=%s replay=%s" % (pid, args.replay))
+            return 1
         lines = rp['ops']
         d = core.fails(lines)
         if d is None:
@@ -148,7 +157,11 @@ def main():
     # ---------------- (B) correspondence ----------------------------------
     rng = random.Random(seed * 1000003 + int(pid[1:]))
     stats = Stats()
-    hists = mod.histories(rng, tier if not lean_broken else 'thorough')
+    kernel_rows = {}
+    if lean_broken and hasattr(mod, 'kernel_failing_rows'):
+        # a generated kernel table no longer matches the model: the differing rows ARE failing inputs
+        kernel_rows = mod.kernel_failing_rows()
+    hists = mod.histories(rng, tier if (not lean_broken or kernel_rows) else 'thorough')
     corpus = mod.corpus() if hasattr(mod, 'corpus') else []
     # repaired defects stay in the corpus: their replays must agree with the model from now on
     corpus = corpus + [k['replay'] for k in load_known(pid) if k.get('status') == 'fixed' and k.get('replay')
@@ -212,6 +225,18 @@ def main():
         if len(violations) >= 5:
             break
 
+    if kernel_rows:
+        rows = kernel_rows
+        if rows:
+            path = write_replay(pid, {
+                'property': pid, 'kind': 'failing-input', 'subkind': 'kernel-row', 'seed': seed, 'tier': tier,
+                'repo_head': repo_head(), 'ops': [], 'kernel_rows': rows,
+                'obligation': [t['name'] for t in lean['theorems'] if not t['ok']],
+                'note': 'the helper function(s) named under kernel_rows, CALLED in the tree under test, return '
+                        'a value different from the definition of the Lean model (which the property theorems are '
+                        'about) on the listed arguments',
+                'how_to_run': './check %s --replay <this file>' % pid})
+            violations.append((path, ''))
     if lean_broken and not violations:
         bad = [t['name'] for t in lean['theorems'] if not t['ok']]
         path = write_replay(pid, {
